@@ -126,6 +126,13 @@ theorem Acc.same {s0 st st' : St} {rc : List Tree} (h : Acc s0 rc st) (ht : st'.
 
 theorem Acc.nil (s : St) : Acc s [] s := by simp [Acc, frontierL]
 
+theorem Acc.extend {s0 st st' : St} {rc c0 : List Tree} (h : Acc s0 rc st)
+    (ht : st.all = frontierL c0 ++ st'.all) : Acc s0 (c0.reverse ++ rc) st' := by
+  unfold Acc at *
+  rw [h, ht]
+  simp [frontierL_append]
+
+
 /-- a call that logs no drop event and satisfies `ASpec` -/
 def Clean (s : St) (o : Outcome) (s' : St) : Prop := ASpec s o s' ∧ D s' = D s
 
@@ -438,45 +445,70 @@ theorem callCatch_nm {f : F} {c : Cls} {s : St} {o : Outcome} {s' : St}
 
 abbrev L (env : Env) := logExt_ok env
 
-theorem doHook_A {f : F} (hf : FA f) {cfg : Cfg} {v : LoopVars} {s : St} {r : HookRes} {s' : St}
-    (heq : doHook env f cfg v s = (r, s')) (hD : D s' = D s) :
+theorem hookLead_A {fuel : Nat} {s : St} {r : Except Exc (List Tree)} {s' : St}
+    (heq : hookLead env fuel s = (r, s')) :
+    D s' = D s ∧ LogExt s s' ∧ (∀ e, r = .error e → e ≠ .noMatch) ∧
+      ∀ lead, r = .ok lead → Acc s lead s' := by
+  unfold hookLead at heq
+  split at heq
+  · have hl : LogExt s s' := by
+      have := addCID_rel (logExt_ok env) fuel [] s; rw [heq] at this; exact this
+    refine ⟨addCID_D heq, hl, ?_, (addCID_A (Acc.nil s) heq).2⟩
+    intro e he; subst he; exact addCID_nm heq
+  · inj2 heq
+    refine ⟨rfl, LogExt.refl _, ?_, ?_⟩
+    · intro e he; cases he
+    · intro lead he; cases he; exact Acc.nil _
+
+theorem doHook_A {f : F} (hf : FA f) {fuel : Nat} {cfg : Cfg} {v : LoopVars} {s : St}
+    {r : HookRes} {s' : St} (heq : doHook env f fuel cfg v s = (r, s')) (hD : D s' = D s) :
     match r with
     | .proceed => s'.all = s.all
-    | .append t => s.all = t.frontier ++ s'.all
-    | .raise .noMatch => s'.all = s.all
+    | .append ts => s.all = frontierL ts.reverse ++ s'.all
     | .raise _ => True := by
   unfold doHook at heq
   split at heq
   · split at heq
-    · inj2 heq; trivial
-    · rename_i sc _
+    · rename_i e s0 h0
+      inj2 heq; trivial
+    · rename_i lead s0 h0
+      obtain ⟨d0, l0, _, ha0⟩ := hookLead_A h0
+      have hacc := ha0 lead rfl
       split at heq
-      · rename_i e s1 h1
-        inj2 heq
-        have := hf.spec _ _ _ _ h1 hD
-        cases e <;> first | trivial | exact this
-      · rename_i s1 h1
-        inj2 heq
-        exact hf.spec _ _ _ _ h1 hD
-      · rename_i t s1 h1
-        have hl : LogExt s s1 := by have := hf.log sc s; rw [h1] at this; exact this
-        have hm := D_mono hl
-        simp only at heq
+      · inj2 heq; trivial
+      · rename_i sc _
         split at heq
-        · split at heq
-          · inj2 heq; trivial
+        · inj2 heq; trivial
+        · rename_i s1 h1
+          inj2 heq
+          have hr := restoreRc_all lead s1
+          rw [hr.2] at hD
+          have := hf.spec _ _ _ _ h1 (by omega)
+          simp only at this ⊢
+          rw [hr.1, this]; exact hacc.symm
+        · rename_i t s1 h1
+          have hl1 : LogExt s0 s1 := by have := hf.log sc s0; rw [h1] at this; exact this
+          have hm := D_mono hl1
+          split at heq
           · split at heq
-            · inj2 heq
-              exact hf.spec _ _ _ _ h1 hD
-            · inj2 heq
-              have hr := restore_all t s1
-              rw [hr.2] at hD
-              have := hf.spec _ _ _ _ h1 hD
-              simp only at this
-              rw [hr.1, this]
-        · inj2 heq
-          rw [D_ev_drop _ _ rfl] at hD
-          omega
+            · inj2 heq; trivial
+            · split at heq
+              · inj2 heq
+                have := hf.spec _ _ _ _ h1 (by omega)
+                simp only at this ⊢
+                have h2 := hacc.push this
+                unfold Acc at h2; exact h2
+              · inj2 heq
+                have hr := restore_all t s1
+                have hr2 := restoreRc_all lead (restore t s1)
+                rw [hr2.2, hr.2] at hD
+                have := hf.spec _ _ _ _ h1 (by omega)
+                simp only at this ⊢
+                rw [hr2.1, hr.1, ← this]; exact hacc.symm
+          · inj2 heq
+            have hr2 := restoreRc_all lead (s1.ev (Ev.ghost Ghost.hookDrop))
+            rw [hr2.2, D_ev_drop _ _ rfl] at hD
+            omega
   · inj2 heq; rfl
 
 theorem matchedStep_A {cfg : Cfg} {startT : Option Tree} {sn : Option (Option Name)} {i : Nat}
@@ -556,18 +588,21 @@ theorem blockLoop_A {f : F} (hf : FA f) {cfg : Cfg} {classes : List Cls} {startT
     · rename_i cls _
       split at heq
       · inj2 heq; trivial
-      · rename_i t s1 h1
+      · rename_i ts s1 h1
         have l1 : LogExt s s1 := by
-          have := doHook_rel (L env) hf.log cfg v s; rw [h1] at this; exact this
+          have := doHook_rel (L env) hf.log k cfg v s; rw [h1] at this; exact this
         have l2 : LogExt s1 s' := by
-          have := blockLoop_rel (L env) hf.log cfg classes startT sn k i { v with rc := t :: v.rc } s1
+          have := blockLoop_rel (L env) hf.log cfg classes startT sn k i { v with rc := ts ++ v.rc } s1
           rw [heq] at this; exact this
         have m1 := D_mono l1; have m2 := D_mono l2
         have hh := doHook_A hf h1 (by omega)
-        exact ih (v := { v with rc := t :: v.rc }) (hacc.push hh) heq (by omega)
+        have hacc2 : Acc s0 (ts ++ v.rc) s1 := by
+          have := Acc.extend (c0 := ts.reverse) hacc (by simpa using hh)
+          simpa using this
+        exact ih (v := { v with rc := ts ++ v.rc }) hacc2 heq (by omega)
       · rename_i sa h1
         have l1 : LogExt s sa := by
-          have := doHook_rel (L env) hf.log cfg v s; rw [h1] at this; exact this
+          have := doHook_rel (L env) hf.log k cfg v s; rw [h1] at this; exact this
         have m1 := D_mono l1
         split at heq
         · inj2 heq; trivial
@@ -1078,12 +1113,6 @@ def USpec (q : Quirks) (s0 : St) (u : UnitStep) (s' : St) : Prop :=
   | .go rc1 => Acc s0 rc1 s'
   | .stop r => PSpec q s0 r s'
 
-theorem Acc.extend {s0 st st' : St} {rc c0 : List Tree} (h : Acc s0 rc st)
-    (ht : st.all = frontierL c0 ++ st'.all) : Acc s0 (c0.reverse ++ rc) st' := by
-  unfold Acc at *
-  rw [h, ht]
-  simp [frontierL_append]
-
 theorem unitStep_A {f : F} (hf : FA f) {fuel : Nat} {unit main0 : Cls} {rc : List Tree}
     {s0 s : St} {u : UnitStep} {s' : St} (hacc : Acc s0 rc s)
     (heq : unitStep env f fuel unit main0 rc s = (u, s')) (hD : D s' = D s) :
@@ -1116,7 +1145,7 @@ theorem unitStep_A {f : F} (hf : FA f) {fuel : Nat} {unit main0 : Cls} {rc : Lis
         have hb' := blockMatch_A hf hb (by omega)
         simp only [MRel, St.ev_all] at hb'
         simp only [USpec]
-        exact (hacc.same e1).extend hb'
+        exact Acc.extend (hacc.same e1) hb'
       | none =>
         simp only at heq
         inj2 heq
